@@ -556,12 +556,12 @@ impl Message {
                                                 target: Id::from_bytes(arguments.target)?,
                                                 v: arguments.v,
                                                 k,
-                                                seq: arguments.seq.expect(
-                                                    "Put mutable message to have sequence number",
-                                                ),
-                                                sig: arguments.sig.expect(
-                                                    "Put mutable message to have a signature",
-                                                ),
+                                                seq: arguments
+                                                    .seq
+                                                    .ok_or(DecodeMessageError::MissingMutableFields)?,
+                                                sig: arguments
+                                                    .sig
+                                                    .ok_or(DecodeMessageError::MissingMutableFields)?,
                                                 salt: arguments.salt,
                                                 cas: arguments.cas,
                                             },
@@ -921,6 +921,9 @@ pub enum DecodeMessageError {
 
     #[error("Wrong number of bytes for signed peers")]
     InvalidSignedPeersEncodingLength,
+
+    #[error("Put mutable message is missing its sequence number or signature")]
+    MissingMutableFields,
 }
 
 #[cfg(test)]
